@@ -1368,12 +1368,33 @@ func (g *c03ProgGen) moduleItem(depth int) c03Stmt {
 		d := g.varDecl(depth, true)
 		return c03Stmt{c03S("Stmt(export "+d.p.str+")", "export", d.p), true, false}
 	case 8:
+		// export [default] function / class declaration: not terminated by ';' — a ';' after it, on the same or on the
+		// next line, is an EmptyStatement (dropped before def2553)
+		deflt := r.Chance(1, 3)
+		named := !deflt || r.Bool()
+		var d c03Piece
 		if r.Bool() {
-			f := g.function(depth-1, r.Chance(1, 4), r.Chance(1, 4), true, true)
-			return c03Stmt{c03S("Stmt(export "+f.str+")", "export", f), false, false}
+			d = g.function(depth-1, r.Chance(1, 4), r.Chance(1, 4), named, false)
+		} else {
+			d = g.class(depth-1, named, false)
 		}
-		c := g.class(depth-1, true, true)
-		return c03Stmt{c03S("Stmt(export "+c.str+")", "export", c), false, false}
+		parts := []interface{}{"export"}
+		str := "Stmt(export "
+		if deflt {
+			parts = append(parts, "default")
+			str += "default "
+		}
+		parts = append(parts, d)
+		str += d.str + ")"
+		switch r.Intn(4) {
+		case 0:
+			parts = append(parts, c03NoLT, ";")
+			str += " Stmt()"
+		case 1:
+			parts = append(parts, c03MustLT, ";")
+			str += " Stmt()"
+		}
+		return c03Stmt{c03S(str, parts...), false, false}
 	default:
 		for {
 			e := g.expr(c03NtAssignment, depth, true)
